@@ -53,7 +53,7 @@ ASSUMPTIONS = [
     "the expected file after an edit is the original file with the one byte at sh_offset + k changed",
 ]
 
-CPU_CAP_SMALL = 1.0     # seconds of process CPU time for one parse/build of a file < 100 kB
+CPU_CAP_SMALL = 0.5     # seconds of process CPU time for one parse/build of a file < 100 kB
 CPU_CAP_BIG = 4.0
 MEM_CAP = 3 << 30       # address-space cap of a worker while deviated files are handled
 
@@ -101,6 +101,25 @@ class limited(object):
         signal.setitimer(signal.ITIMER_VIRTUAL, 0)
         signal.signal(signal.SIGVTALRM, self.old)
         return False
+
+
+def _guarded(f, cap):
+    """Run one loader call under the CPU cap; return (result, None) or (None, reason of the refusal)."""
+    try:
+        with limited(cap):
+            return f(), None
+    except CpuTimeout:
+        return None, "cpu-cap"
+    except MemoryError:
+        return None, "MemoryError"
+    except RecursionError:
+        return None, "RecursionError"
+    except Exception as ex:
+        return None, type(ex).__name__
+
+
+def cap_for(data):
+    return CPU_CAP_SMALL if len(data) < 100000 else CPU_CAP_BIG
 
 
 def file_class(data):
@@ -214,8 +233,19 @@ def check_identity(ent):
         vs.append(violation("identity:bytes-differ:%s:%s" % (region, cls),
                             "bytes(ELF(%s)) differs from the file (%d vs %d bytes), first at offset %#x: %r became %r"
                             % (ent["name"], len(data), len(out), k, data[k:k + 8], out[k:k + 8]), case))
-    # informative: miasm's raw header tables against the struct-only reader
     v = view(e)
+    # the sections the parser hands out must hold the file's bytes (baseline of "the same sections")
+    for i, (sec, sh) in enumerate(zip(v["sections"], tables["shdrs"])):
+        if sec[3] is None or sh["offset"] + sh["size"] > len(data):
+            continue
+        want = data[sh["offset"]:sh["offset"] + sh["size"]]
+        if sec[3] != want:
+            how = "longer" if len(sec[3]) > len(want) else ("shorter" if len(sec[3]) < len(want) else "differs")
+            vs.append(violation("identity:section-content-%s:%s:%s" % (how, sht_name(sh["type"]), cls),
+                                "%s: section %d (%s %r) is %#x bytes in the file (sh_size) but the parsed section's "
+                                "content is %#x bytes: %r..." % (ent["name"], i, sht_name(sh["type"]), sec[1], len(want),
+                                                                len(sec[3]), sec[3][len(want) - 4:len(want) + 16]), case))
+    # informative: miasm's raw header tables against the struct-only reader
     if [dict(zip(SHDR_FIELDS, s[0])) for s in v["sections"]] != tables["shdrs"]:
         st["reader_disagree"].append("shdrs:" + ent["name"])
     if [dict(zip(elfcorpus.PHDR_FIELDS, p)) for p in v["segments"]] != tables["phdrs"]:
@@ -259,43 +289,48 @@ def check_edit(ent, i, pos, xor, path, orig_view=None):
     old = bytes(s.content)
     if not old:
         return [], "empty"
+    if old != data[sh.offset:sh.offset + sh.size]:
+        # reported once per section by the identity stage; an edit position has no meaning here
+        return [], "skipped-parsed-content-is-not-file-content:%s" % stype
     k = 0 if pos == "first" else len(old) - 1
     if pos == "last" and len(old) == 1:
         return [], "same-as-first"
     nb = bytes([old[k] ^ xor])
     new = old[:k] + nb + old[k + 1:]
     sig_tail = "%s:%s:%s:%s" % (path, stype, pos, cls)
-    try:
+    cap = cap_for(data)
+    if path == "virt":
+        if not isinstance(s, ProgBits) or not sh.addr:
+            return [], "virt-not-applicable"
+        # the virtual view resolves an address to the *first* section containing it
+        if e.getsectionbyvad(sh.addr + k) is not s:
+            return [], "virt-address-shared"
+
+    def apply():
         if path == "assign":
             s.content = new
         elif path == "patch":
             s.content[k] = nb
         else:
-            if not isinstance(s, ProgBits) or not sh.addr:
-                return [], "virt-not-applicable"
-            # the virtual view resolves an address to the *first* section containing it
-            if e.getsectionbyvad(sh.addr + k) is not s:
-                return [], "virt-address-shared"
             e.virt.set(sh.addr + k, nb)
-    except Exception as ex:
-        return [], "refused:%s:%s:%s" % (path, stype, type(ex).__name__)
+        return True
+
+    _, err = _guarded(apply, cap)
+    if err:
+        return [], "refused:%s:%s:%s" % (path, stype, err)
     what0 = "%s: section %d (%s, %r, %#x bytes at offset %#x), %s byte %#04x -> %#04x through %s" % (
         ent["name"], i, stype, _safe(lambda: bytes(s.sh.name)), len(old), sh.offset, pos, old[k], nb[0], path)
-    try:
-        out = bytes(e)
-    except Exception as ex:
-        return [violation("edit:build-raise-%s:%s" % (type(ex).__name__, sig_tail), what0 + ": bytes(elf) raised %r" % (ex,), case)], "violation"
+    out, err = _guarded(lambda: bytes(e), cap)
+    if err:
+        return [violation("edit:build-%s:%s" % (err, sig_tail), what0 + ": bytes(elf) ends with %s" % err, case)], "violation"
     expected = data[:sh.offset + k] + nb + data[sh.offset + k + 1:]
-    try:
-        want = view(ELF(expected))
-    except Exception as ex:
+    want, err = _guarded(lambda: view(ELF(expected)), cap)
+    if err:
         # the content change itself makes the file unreadable for this parser: nothing to compare with
-        return [], "expected-file-unparseable:%s:%s" % (stype, type(ex).__name__)
-    try:
-        r = ELF(out)
-        got = view(r)
-    except Exception as ex:
-        return [violation("edit:reparse-raise-%s:%s" % (type(ex).__name__, sig_tail), what0 + ": re-parsing the serialised file raised %r" % (ex,), case)], "violation"
+        return [], "expected-file-unparseable:%s:%s" % (stype, err)
+    got, err = _guarded(lambda: view(ELF(out)), cap)
+    if err:
+        return [violation("edit:reparse-%s:%s" % (err, sig_tail), what0 + ": re-parsing the serialised file ends with %s" % err, case)], "violation"
     vs = []
     d = diff_views(want, got)
     if d:
@@ -347,7 +382,7 @@ def check_deviation(ent, label, fcls, off, sz, delta):
     data = ent["data"]
     lay = elfcorpus.Layout(data)
     cls = file_class(data)
-    cap = CPU_CAP_SMALL if len(data) < 100000 else CPU_CAP_BIG
+    cap = cap_for(data)
     val = lay.read(data, off, sz)
     dev = lay.write(data, off, sz, val + delta)
     case = {"k": "deviation", "file": ent["name"], "sha256": ent["sha256"], "label": label, "fcls": fcls,
@@ -355,18 +390,7 @@ def check_deviation(ent, label, fcls, off, sz, delta):
     dsig = "%s:%s:%s" % (fcls, "+1" if delta > 0 else "-1", cls)
     what0 = "%s with %s %#x -> %#x" % (ent["name"], label, val, (val + delta) % (1 << (8 * sz)))
 
-    def guarded(f):
-        try:
-            with limited(cap):
-                return f(), None
-        except CpuTimeout:
-            return None, "cpu-cap"
-        except MemoryError:
-            return None, "MemoryError"
-        except RecursionError:
-            return None, "RecursionError"
-        except Exception as ex:
-            return None, type(ex).__name__
+    guarded = lambda f: _guarded(f, cap)
 
     e1, err = guarded(lambda: ELF(dev))
     if err:
